@@ -13,6 +13,8 @@ import (
 	"github.com/gocql/gocql"
 
 	"verifharness/fakenode"
+	"verifharness/memnet"
+	"verifharness/perturb"
 	"verifharness/runner"
 )
 
@@ -294,5 +296,133 @@ func c07tcp(c *runner.Ctx, i int) {
 	}
 	if c.WantSample() {
 		c.Sample(wit)
+	}
+}
+
+// c07queuedCancel: requests that are queued behind a write in progress and whose contexts end while they wait. The
+// write in progress is slow, not failing (the transport takes 400 ms to accept it), so whatever is allowed to proceed
+// afterwards really reaches the wire. The waiting requests are known to have reached the writer (hook point just in
+// front of it) before they are cancelled; none of their bytes may ever appear.
+func c07queuedCancel(c *runner.Ctx, i int) {
+	r := c.Rng
+	version := 3 + i%3
+	coalesced := i%2 == 1
+	cl := fakenode.NewCluster(1)
+	cl.Nodes[0].Handler = func(sc *fakenode.ServerConn, req *fakenode.Req) { sc.ReplyVoid(req) }
+	var slow int32
+	cl.FaultsFor = func(n *fakenode.Node, k int) memnet.Faults {
+		f := memnet.NoFaults()
+		if k == 1 {
+			f.WriteDelayFn = func() time.Duration {
+				if atomic.LoadInt32(&slow) == 1 {
+					return 400 * time.Millisecond
+				}
+				return 0
+			}
+		}
+		return f
+	}
+	ctl := perturb.Install(c.Seed*71+int64(i), 0, 0, &c.Activity)
+	defer perturb.Uninstall()
+	var built int64
+	ctl.SetOnHit("exec.built", func() { atomic.AddInt64(&built, 1) })
+	cfg := newCfg(cl, version)
+	cfg.NumConns = 1
+	cfg.Timeout = 5 * time.Second
+	cfg.ConnectTimeout = 5 * time.Second
+	cfg.WriteTimeout = 5 * time.Second
+	if coalesced {
+		cfg.WriteCoalesceWaitTime = 200 * time.Microsecond
+	}
+	cfg.PageSize = 0
+	cfg.DefaultTimestamp = false
+	var sess *gocql.Session
+	var err error
+	c.Guard("CreateSession", func() { sess, err = cfg.CreateSession() })
+	if err != nil {
+		c.Inconclusive("c07queued-session", err.Error())
+		return
+	}
+	defer func() { c.Guard("Session.Close", sess.Close) }()
+	// let the pool settle (its connection does its handshake at full speed), then make writes slow
+	if err := sess.Query("ECHO warm" + fmt.Sprint(i)).Exec(); err != nil {
+		c.Inconclusive("c07queued-warmup", err.Error())
+		return
+	}
+	atomic.StoreInt32(&slow, 1)
+	b0 := atomic.LoadInt64(&built)
+	var wg sync.WaitGroup
+	tokA := fmt.Sprintf("qa%d", i)
+	wg.Add(1)
+	go func() {
+		defer wg.Done()
+		c.Guard("Query.Exec", func() { sess.Query("ECHO " + tokA).Exec() })
+	}()
+	// A has reached the writer; give it a moment to be inside the slow write (coalesced: inside the flush)
+	for w := 0; w < 2000 && atomic.LoadInt64(&built) < b0+1; w++ {
+		time.Sleep(time.Millisecond)
+	}
+	time.Sleep(20 * time.Millisecond)
+	nb := 2 + r.Intn(5)
+	type waiter struct {
+		tok    string
+		cancel context.CancelFunc
+		err    error
+		done   chan struct{}
+	}
+	var ws []*waiter
+	for k := 0; k < nb; k++ {
+		ctx, cancel := context.WithCancel(context.Background())
+		if k%2 == 1 {
+			ctx, cancel = context.WithTimeout(context.Background(), 60*time.Millisecond)
+		}
+		w := &waiter{tok: fmt.Sprintf("qb%d_%d", i, k), cancel: cancel, done: make(chan struct{})}
+		ws = append(ws, w)
+		wg.Add(1)
+		go func() {
+			defer wg.Done()
+			defer close(w.done)
+			c.Guard("Query.Exec", func() { w.err = sess.Query("ECHO " + w.tok).WithContext(ctx).Exec() })
+		}()
+	}
+	for w := 0; w < 2000 && atomic.LoadInt64(&built) < b0+1+int64(nb); w++ {
+		time.Sleep(time.Millisecond)
+	}
+	reached := atomic.LoadInt64(&built) >= b0+1+int64(nb)
+	time.Sleep(30 * time.Millisecond)
+	for _, w := range ws {
+		w.cancel()
+	}
+	wg.Wait()
+	atomic.StoreInt32(&slow, 0)
+	c.Add("queued_cancel_cases", 1)
+	if !reached {
+		c.Inconclusive("c07queued-not-reached", "the waiting requests did not all reach the writer")
+		return
+	}
+	c.Add("requests_cancelled_while_queued", int64(nb))
+	c.Eval(runner.H("c07queued", version, coalesced, nb), true)
+	// a later request proves that everything written before it has reached the record
+	sess.Query("ECHO tail" + fmt.Sprint(i)).Exec()
+	var all []string
+	for _, sc := range cl.AllConns() {
+		wr, _, _, _ := sc.Driver.Snapshot()
+		all = append(all, string(wr))
+	}
+	kind := "direct"
+	if coalesced {
+		kind = "coalesced"
+	}
+	for _, w := range ws {
+		if w.err == nil {
+			continue // it got through before it was cancelled (cannot happen while A holds the writer, but then it is a sent request)
+		}
+		for _, s := range all {
+			if strings.Contains(s, "ECHO "+w.tok) {
+				c.Violation("C07:bytes-for-request-cancelled-while-queued:"+kind, fmt.Sprintf("request %s waited behind a write in progress, its context ended there (%v), and its frame was written afterwards", w.tok, w.err),
+					map[string]interface{}{"version": version, "writer": kind, "waiters": nb})
+				return
+			}
+		}
 	}
 }
